@@ -143,6 +143,24 @@ def _extract():
         vals['minimizerRssForwarded'] = fw[0].id != 'rss'
     except Exception:  # noqa
         failed.append('minimizerRssForwarded')
+    # RandomChoice._assert_probabilities: form of the test of the sum against the tolerance
+    try:
+        f = _find(_find(_parse('skyllh/core/random.py'), ast.ClassDef, 'RandomChoice'), ast.FunctionDef, '_assert_probabilities')
+        tests = [n.test for n in ast.walk(f) if isinstance(n, ast.If) and any(
+            isinstance(x, ast.Name) and x.id == 'atol' for x in ast.walk(n.test))]
+        if len(tests) != 1:
+            raise LookupError('sum test')
+        t = tests[0]
+        is_abs = lambda e: isinstance(e, ast.Call) and isinstance(e.func, ast.Name) and e.func.id == 'abs'   # noqa
+        if isinstance(t, ast.Compare) and len(t.ops) == 1 and isinstance(t.ops[0], ast.Gt) and is_abs(t.left):
+            vals['probSumTestRejectsNaN'] = False        # abs(p_sum - 1) > atol: false for NaN
+        elif (isinstance(t, ast.UnaryOp) and isinstance(t.op, ast.Not) and isinstance(t.operand, ast.Compare)
+              and len(t.operand.ops) == 1 and isinstance(t.operand.ops[0], ast.LtE) and is_abs(t.operand.left)):
+            vals['probSumTestRejectsNaN'] = True         # not (abs(p_sum - 1) <= atol)
+        else:
+            raise LookupError('unrecognised form')       # the NaN cases of the correspondence decide
+    except Exception:  # noqa
+        failed.append('probSumTestRejectsNaN')
     return vals, failed
 
 
@@ -170,6 +188,8 @@ def generated(ctx):
         'def minimizerSeedFromRss : Bool := %s' % b(vals['minimizerSeedFromRss']),
         '/-- do_trial hands the minimiser service it bound (not the data service `rss`) to do_trial_with_given_pseudo_data -/',
         'def minimizerRssForwarded : Bool := %s' % b(vals['minimizerRssForwarded']),
+        '/-- RandomChoice._assert_probabilities tests the sum with `not (abs(p_sum - 1) <= atol)` (rejects NaN) -/',
+        'def probSumTestRejectsNaN : Bool := %s' % b(vals['probSumTestRejectsNaN']),
         'end Gen.C08', ''])
 
 
@@ -493,18 +513,31 @@ def _file(seeds):
     return rec
 
 
-def _extend(used, cur, rows):
+SEED_FORMS = ['int', 'np64', 'npu32', 'str', 'float']
+
+
+def _seedform(v, form):
+    """the same seed handed over as int / numpy integer / digit string / integral float (int_cast accepts all)"""
+    return {'int': int, 'np64': np.int64, 'npu32': np.uint32, 'str': str, 'float': float}[form or 'int'](v)
+
+
+def _extend(used, cur, rows, glue=None):
+    """glue: {'td': 'nd'|'rec', 'n': 'int'|'np'|'float', 'seed': one of SEED_FORMS} — forms of the arguments"""
     from skyllh.core.random import RandomStateService
     from skyllh.core.utils.analysis import extend_trial_data_file
-    rss = RandomStateService(cur)
+    glue = glue or {}
+    rss = RandomStateService(_seedform(cur, glue.get('seed')))
     td = _file(used)
-    out = extend_trial_data_file(_SeedAna(), rss, rows, td)
+    if glue.get('td') == 'rec':
+        td = td.view(np.recarray)
+    n = {'int': int, 'np': np.int64, 'float': float}[glue.get('n', 'int')](rows)
+    out = extend_trial_data_file(_SeedAna(), rss, n, td)
     return rss, td, out
 
 
-def _impl_seed(used, cur):
+def _impl_seed(used, cur, glue=None):
     try:
-        rss, td, out = _extend(used, cur, 1)
+        rss, td, out = _extend(used, cur, 1, glue)
     except Exception as e:  # noqa
         return 'EXC:' + type(e).__name__
     return str(int(out['seed'][-1]))
@@ -513,7 +546,7 @@ def _impl_seed(used, cur):
 def o_seed(ctx, case):
     used, cur, rows = case['used'], case['cur'], case.get('rows', 2)
     try:
-        rss, td, out = _extend(used, cur, rows)
+        rss, td, out = _extend(used, cur, rows, case.get('glue'))
     except Exception as e:  # noqa
         return 'extend_trial_data_file with file seeds %r, rss.seed=%r raised %s: %s' % (used, cur, type(e).__name__, e)
     if len(out) != len(used) + rows:
@@ -1042,10 +1075,24 @@ def o_times(ctx, case):
     return None
 
 
-def _mk_time_objs(ivs):
+def _ivs_array(ivs, layout=None):
+    """the (N,2) interval array in different memory layouts: C, Fortran order, a strided view, read-only"""
+    a = np.array(ivs, dtype=np.float64).reshape((-1, 2))
+    if layout == 'F':
+        a = np.asfortranarray(a)
+    elif layout == 'strided':
+        big = np.zeros((2 * len(a), 4))
+        big[::2, 1:3] = a
+        a = big[::2, 1:3]
+    elif layout == 'readonly':
+        a.setflags(write=False)
+    return a
+
+
+def _mk_time_objs(ivs, layout=None):
     from skyllh.core.livetime import Livetime
     from skyllh.core.times import LivetimeTimeGenerationMethod, TimeGenerator
-    lt = Livetime(np.array(ivs, dtype=np.float64).reshape((-1, 2)))
+    lt = Livetime(_ivs_array(ivs, layout))
     return lt, TimeGenerator(LivetimeTimeGenerationMethod(lt))
 
 
@@ -1055,15 +1102,17 @@ def o_time_history(ctx, case):
     objects with a service in the same stream state"""
     from skyllh.core.random import RandomStateService
     ivs = case['ivs']
-    lt, tg = _mk_time_objs(ivs)
+    lay = case.get('layout')
+    lt, tg = _mk_time_objs(ivs, lay)
     svcs, used = {}, {}
     for k, st in enumerate(case['steps']):
         if 'set_ivs' in st:
             ivs = st['set_ivs']
-            lt.uptime_mjd_intervals_arr = np.array(ivs, dtype=np.float64).reshape((-1, 2))
+            lt.uptime_mjd_intervals_arr = _ivs_array(ivs, lay)
             continue
         seed, size, win, name = st['seed'], st['size'], st.get('win'), st.get('svc')
         kw = {} if win is None else {'t_min': win[0], 't_max': win[1]}
+        szf = np.int64(size) if st.get('size_form') == 'np' else size
         if name is None:
             rss, ref_rss = RandomStateService(seed), RandomStateService(seed)
         else:
@@ -1078,10 +1127,10 @@ def o_time_history(ctx, case):
         flt, ftg = _mk_time_objs(ivs)
         try:
             if st.get('via') == 'lt':
-                got = lt.draw_ontimes(rss=rss, size=size, **kw)
+                got = lt.draw_ontimes(rss=rss, size=szf, **kw)
                 want = flt.draw_ontimes(rss=ref_rss, size=size, **kw)
             else:
-                got = tg.generate_times(rss=rss, size=size, **kw)
+                got = tg.generate_times(rss=rss, size=szf, **kw)
                 want = ftg.generate_times(rss=ref_rss, size=size, **kw)
         except Exception as e:  # noqa
             return 'step %d of the history %r on intervals %r raised %s: %s' % (k, case['steps'], case['ivs'], type(e).__name__, e)
@@ -1157,11 +1206,14 @@ def o_rss_history(ctx, case):
     """ONE RandomStateService through a history of draws of several kinds and reseeds: after reseed(s) it
     reports seed s and behaves like RandomStateService(s); between reseeds it follows the stream of its seed"""
     from skyllh.core.random import RandomStateService
-    rss = RandomStateService(case['seed'])
+    forms = case.get('forms') or ['int']
+    rss = RandomStateService(_seedform(case['seed'], forms[0]))
+    if rss.seed != case['seed'] or type(rss.seed) is not int:
+        return 'RandomStateService(%r) reports seed %r' % (_seedform(case['seed'], forms[0]), rss.seed)
     ref = np.random.RandomState(case['seed'])
     for k, st in enumerate(case['steps']):
         if 'reseed' in st:
-            rss.reseed(st['reseed'])
+            rss.reseed(_seedform(st['reseed'], forms[(k + 1) % len(forms)]))
             ref = RandomStateService(st['reseed']).random
             if rss.seed != st['reseed']:
                 return 'after reseed(%d) the service reports seed %r' % (st['reseed'], rss.seed)
@@ -1503,6 +1555,55 @@ def o_extend_labels(ctx, case):
     return None
 
 
+# every branch of the modelled functions that the driver can take; a branch never hit in a run is an untied branch
+_BRANCHES = [
+    'search:side-right', 'chooseCoded:returns', 'extendSeed:seed-in-file', 'extendSeed:seed-not-in-file',
+    'firstUnused:first-candidate-free', 'firstUnused:later-candidate', 'doTrial:no-minimiser-service',
+    'doTrial:explicit-minimiser-service', 'doTrial:aliased-minimiser-service', 'parTrials:sequential',
+    'parTrials:several-processes', 'parTrials:empty-worker-chunk', 'doTrials:returns', 'doTrials:raises-ncpu',
+    'doTrials:raises-no-trials', 'trialsSeqE:raise', 'trialsSeqE:no-raise', 'trialsSeqE:raise-at-first-trial',
+    'trialsSeqE:raise-at-later-trial', 'restartLoop:converged-at-first-attempt', 'restartLoop:converged-after-restarts',
+    'restartLoop:gives-up-maxrep', 'restartLoop:gives-up-maxrep-or-not-repeatable', 'clipOne:at-lower', 'clipOne:at-upper',
+    'clipOne:inside', 'construct:REJ:type', 'construct:REJ:value', 'construct:accepted', 'getNcpu:local', 'getNcpu:config',
+    'getNcpu:default', 'getNcpu:raises', 'extendLabels:reseeded', 'extendLabels:continues-at-position',
+    'extendLabels:one-process', 'extendLabels:several-processes', 'extendMany:history', 'extendShared:history',
+]
+# branches of the model that no valid input reaches, with the theorem that says so
+_UNREACHABLE = {
+    'cdf:empty-array (IndexError)': 'c08_construct_never_index_error',
+    'construct:REJ:index': 'c08_construct_never_index_error',
+    'chooseCoded:raises (IndexError in items[idxs])': 'c08_choice_in_range / c08_choice_object_correct',
+    'firstUnused:fuel-exhausted': 'C08.exists_unused (pigeonhole) in c08_next_seed_fresh',
+    'search:side-left': 'c08_choice_side_for_current_source (source constant)',
+}
+
+
+def _branches_old(count, c, m):
+    k = c['kind']
+    if k == 'choice':
+        count('branch:search:side-' + ('right' if _gen()['sideRight'] else 'left'))
+        count('branch:chooseCoded:' + ('raises' if ' spec:ERR' in m else 'returns'))
+    elif k == 'seed':
+        inf = c['cur'] in c['used']
+        count('branch:extendSeed:seed-' + ('in-file' if inf else 'not-in-file'))
+        if inf:
+            new = dict(x.split(':') for x in m.split(' '))['new']
+            count('branch:firstUnused:' + ('first-candidate-free' if int(new) == _gen()['seedStart'] else 'later-candidate'))
+    elif k == 'hist':
+        count('branch:extendMany:history')
+    elif k == 'histshared':
+        count('branch:extendShared:history')
+    elif k == 'trials':
+        if m.startswith('ERR:'):
+            count('branch:doTrials:raises-' + ('ncpu' if m == 'ERR:value' else 'no-trials'))
+            return
+        count('branch:doTrials:returns')
+        count('branch:doTrial:' + ('aliased' if c.get('mini') == 'same' else 'explicit' if c.get('mini') else 'no') + '-minimiser-service')
+        count('branch:parTrials:' + ('several-processes' if c['ncpu'] > 1 else 'sequential'))
+        if c['ncpu'] > 1 and c['n'] < c['ncpu']:
+            count('branch:parTrials:empty-worker-chunk')
+
+
 _NEW = {
     'trialsE': (_trialsE_req, _trialsE_impl, _trialsE_compare),
     'cobj': (_cobj_req, _cobj_impl, _cobj_compare),
@@ -1522,7 +1623,7 @@ def o_corr(ctx, case):
                                ctx.driver('C08', [_choice_req(p, case['us'], case.get('items'))])[0], case.get('items'))
     if k == 'seed':
         m = dict(x.split(':') for x in ctx.driver('C08', [_seed_req(case)])[0].split(' '))
-        return _seed_compare(case, _impl_seed(case['used'], case['cur']), m)
+        return _seed_compare(case, _impl_seed(case['used'], case['cur'], case.get('glue')), m)
     if k == 'hist':
         return _hist_compare(case, ctx.driver('C08', [_hist_req(case)])[0])
     if k == 'histshared':
@@ -1613,6 +1714,12 @@ def _mode(name, res):
         return 'reseed-differs' if 'reseeded' in res else 'not-reproducible'
     if name == 'nonint':
         return 'minimizer-shifts-data-stream'
+    if name == 'choice_nan':
+        return 'non-finite-probabilities'
+    if name == 'extend_labels':
+        return 'in-file'
+    if name == 'error_poststate':
+        return 'data-shifted'
     return 'fails'
 
 
@@ -1698,6 +1805,7 @@ def run(ctx):  # noqa: C901
                         'how many deviates a call consumes and that worker seeds are the raw next words are diagnostics, not verdicts',
                         'trial-file seeds are the seeds of the generating services (non-negative integers)']
     cases, oracle_cases = [], []
+    seeds0 = [0, 1, 2, 3, 7, 42, 12345, 2 ** 31, 2 ** 32 - 1]
 
     # ---- RandomChoice
     sizes = [1, 1, 2, 2, 3, 5, 8, 10, 33, 100, 1000, 3000, 10000, 100000]
@@ -1742,8 +1850,9 @@ def run(ctx):  # noqa: C901
                 if not sub and cur > 1:
                     continue
                 used = list(sub)
-                cases.append({'kind': 'seed', 'used': used, 'cur': cur})
-                oracle_cases.append(('seed', {'used': used, 'cur': cur, 'rows': 1}))
+                gl = {'td': ['nd', 'rec'][len(cases) % 2], 'n': ['int', 'np', 'float'][len(cases) % 3], 'seed': SEED_FORMS[len(cases) % 5]}
+                cases.append({'kind': 'seed', 'used': used, 'cur': cur, 'glue': gl})
+                oracle_cases.append(('seed', {'used': used, 'cur': cur, 'rows': 1, 'glue': gl}))
                 ctx.count('seed:cur_in_file' if cur in sub else 'seed:cur_new')
     ctx.extra['seed_subsets_of_0_6_exhaustive'] = True
     for _ in range(ctx.n(40, 3000)):
@@ -1753,8 +1862,9 @@ def run(ctx):  # noqa: C901
         if rng.random() < 0.2:
             used.append(rng.choice([2 ** 31, 2 ** 32 - 1, 10 ** 6]))
         cur = rng.choice(used) if rng.random() < 0.7 else rng.randrange(top + 2)
-        cases.append({'kind': 'seed', 'used': used, 'cur': cur})
-        oracle_cases.append(('seed', {'used': used, 'cur': cur, 'rows': rng.choice([1, 2, 4])}))
+        gl = {'td': rng.choice(['nd', 'rec']), 'n': rng.choice(['int', 'np', 'float']), 'seed': rng.choice(SEED_FORMS)}
+        cases.append({'kind': 'seed', 'used': used, 'cur': cur, 'glue': gl})
+        oracle_cases.append(('seed', {'used': used, 'cur': cur, 'rows': rng.choice([1, 2, 4]), 'glue': gl}))
         ctx.count('seed:random-file')
     for _ in range(ctx.n(25, 1500)):
         file = [rng.randrange(4) for _ in range(rng.randrange(0, 5))]
@@ -1826,6 +1936,7 @@ def run(ctx):  # noqa: C901
             oc = dict(base)
             oc['pre'] = case['pre']
             oracle_cases.append(('fresh_min', oc))
+    cases.append({'kind': 'trials', 'cfg': _gen_cfg(rng), 'seed': rng.choice(seeds), 'pre': 0, 'n': 1, 'ncpu': 3, 'nsig': 1, 'mini': None})
     for j in range(ctx.n(3, 20)):
         oracle_cases.append(('workers', {'cfg': _gen_cfg(rng), 'seed': rng.choice(seeds), 'ncpu': rng.choice([2, 3, 4]),
                                          'nsig': rng.choice([0, 2]), 'pre': rng.choice([0, 1, 4])}))
@@ -1838,11 +1949,88 @@ def run(ctx):  # noqa: C901
             t = b
         oracle_cases.append(('times', {'ivs': ivs, 'seed': rng.choice(seeds), 'size': rng.choice([1, 2, 10, 100])}))
 
+    # ---- deepening round: trials that may raise (sequential), RandomChoice as an object, get_ncpu, labels
+    for j in range(ctx.n(36, 600)):
+        c = _gen_cfg(rng)
+        case = {'kind': 'trialsE', 'cfg': c, 'seed': rng.choice(seeds0), 'pre': rng.choice([0, 0, 2, 5]), 'n': rng.randrange(1, 6),
+                'nsig': rng.choice([0, 1, 2]),
+                'mini': [None, None, {'seed': rng.choice(seeds0), 'pre': rng.choice([0, 3])}, 'same'][j % 4],
+                'need_mod': c['maxrep'] + [1, 2, 4][j % 3], 'norep': [0, 0, 1, 2, 3][j % 5],
+                'delta': [0.0, 0.0, 1e6, -1e6][(j // 2) % 4]}
+        cases.append(case)
+        if j % 4 < 2:
+            oracle_cases.append(('error_poststate', {k: v for k, v in case.items() if k not in ('kind', 'mini')}))
+    nan, inf = 'nan', 'inf'
+    bad_vectors = [[0.0, nan], [nan, 1.0], [0.5, nan, 0.5], [0.0, 0.0, nan, 1.0], [nan], [inf], [0.5, inf], [0.0, '-inf', 1.0],
+                   [nan, nan], [1.0, nan, 0.0]]
+    for j, pv in enumerate(bad_vectors):
+        us = [0.0, 0.5, float(np.nextafter(1.0, 0.0)), rng.random()]
+        dt = ['float64', 'float32'][j % 2]
+        cases.append({'kind': 'cobj', 'p': pv, 'dtype': dt, 'codes': [17 + i for i in range(len(pv))], 'us': us})
+        oracle_cases.append(('choice_nan', {'p': pv, 'dtype': dt, 'us': us}))
+        ctx.count('cobj:non-finite')
+    for j in range(ctx.n(60, 900)):
+        n = rng.choice([0, 1, 2, 3, 5, 9])
+        dt = rng.choice(['float64', 'float64', 'float32', 'float16'])
+        cls = ['valid', 'valid', 'negative', 'sum-off', 'sum-edge', 'size-mismatch', 'items-not-array', 'items-2d', 'items-0d', 'p-2d',
+               'empty'][j % 11]
+        if cls == 'empty':
+            n = 0
+        elif n == 0:
+            n = 2
+        raw = np.array([rng.choice([0.0, rng.random(), rng.random()]) for _ in range(n)])
+        if n and not raw.any():
+            raw[rng.randrange(n)] = 1.0
+        pv = (raw / raw.sum()) if n else raw
+        at = _atol(np.dtype(dt))
+        if cls == 'negative':
+            k = rng.randrange(n)
+            pv[k] = -rng.choice([1e-300, 1e-12, 0.25])
+        elif cls == 'sum-off':
+            pv = pv * rng.choice([0.5, 2.0, 1.0 + 10 * at, 1.0 - 10 * at])
+        elif cls == 'sum-edge':
+            pv = pv * (1.0 + rng.choice([-1, 1]) * at * rng.choice([0.9, 1.1]))
+        pv = pv.astype(dt)
+        with np.errstate(all='ignore'):
+            sm = float(np.sum(pv)) if n else 0.0
+        if n and abs(abs(sm - 1.0) - at) < 0.03 * at:
+            ctx.count('cobj:skipped-too-close-to-the-tolerance')
+            continue
+        codes = [17 + rng.randrange(0, 3 * max(n, 1)) for _ in range(n + (1 if cls == 'size-mismatch' else 0))]
+        case = {'kind': 'cobj', 'p': [float(x) for x in pv.astype(np.float64)], 'dtype': dt, 'codes': codes,
+                'ikind': rng.choice(['offset', 'float', 'str', 'struct']), 'layout': rng.choice(['plain', 'strided', 'readonly', 'reversed']),
+                'size_form': rng.choice(['int', 'np']),
+                'us': [rng.choice([0.0, 0.5, float(np.nextafter(1.0, 0.0)), rng.random()]) for _ in range(rng.choice([0, 1, 4]))]}
+        if cls == 'items-not-array':
+            case['form'] = 'na'
+        elif cls == 'items-2d':
+            case['form'] = 2
+        elif cls == 'items-0d':
+            case['form'] = 0
+        elif cls == 'p-2d':
+            case['pndim'] = 2
+        cases.append(case)
+        ctx.count('cobj:class=%s' % cls)
+        ctx.count('cobj:dtype=%s' % dt)
+        ctx.count('cobj:layout=%s' % case['layout'])
+    for cv in (None, -1, 0, 1, 3):
+        for lv in (None, -2, 0, 1, 2, 5):
+            cases.append({'kind': 'ncpu', 'cfg': cv, 'loc': lv})
+    for j in range(ctx.n(6, 60)):
+        file = sorted(set(rng.randrange(0, 6) for _ in range(rng.randrange(1, 5))))
+        cases.append({'kind': 'labels', 'cfg': _gen_cfg(rng), 'file': file, 'cur': rng.choice(file) if j % 3 else rng.randrange(6, 9),
+                      'pre': rng.choice([0, 2]), 'n': rng.choice([2, 3]), 'ncpu': [1, 2, 2, 3][j % 4]})
+
     # ---- fresh-vs-used histories on one object
     for j in range(ctx.n(40, 600)):
         ivs = _gen_ivs(rng)
         steps = _gen_time_steps(rng, ivs, forced=j % 6)
-        oracle_cases.append(('time_history', {'ivs': ivs, 'steps': steps}))
+        for st in steps:
+            if 'size' in st and rng.random() < 0.3:
+                st['size_form'] = 'np'
+        lay = [None, 'F', 'strided', 'readonly'][j % 4]
+        ctx.count('time_history:layout=%s' % lay)
+        oracle_cases.append(('time_history', {'ivs': ivs, 'steps': steps, 'layout': lay}))
         ctx.count('time_history:len=%d' % len(steps))
     for j in range(ctx.n(20, 300)):
         n = rng.choice([1, 2, 3, 5, 10, 100, 1000])
@@ -1867,7 +2055,8 @@ def run(ctx):  # noqa: C901
             steps.append({'kind': 'normal', 'n': rng.choice([1, 3])})     # leaves a cached Gaussian behind
         steps.append({'reseed': rng.choice(seeds)})
         steps.append({'kind': 'normal' if j % 3 == 0 else rng.choice(['random', 'normal', 'randint']), 'n': 5})
-        oracle_cases.append(('rss_history', {'seed': rng.choice(seeds), 'steps': steps}))
+        oracle_cases.append(('rss_history', {'seed': rng.choice(seeds), 'steps': steps,
+                                             'forms': [rng.choice(SEED_FORMS) for _ in range(3)]}))
 
     # ---- correspondence (one driver process for all requests)
     reqs, impls = [], []
@@ -1879,7 +2068,7 @@ def run(ctx):  # noqa: C901
             impls.append((_impl_choice(p, c['us'], c.get('items')),))
         elif k == 'seed':
             reqs.append(_seed_req(c))
-            impls.append((_impl_seed(c['used'], c['cur']),))
+            impls.append((_impl_seed(c['used'], c['cur'], c.get('glue')),))
         elif k in ('hist', 'histshared'):
             reqs.append(_hist_req(c))
             impls.append((None,))
@@ -1895,6 +2084,7 @@ def run(ctx):  # noqa: C901
         k = c['kind']
         ctx.case(nontrivial=True, key=c, desc=c if ctx.evaluations % 211 == 0 and k != 'choice' or ctx.evaluations == 3 else None)
         ctx.count('corr:' + k)
+        _branches_old(ctx.count, c, m)
         if k == 'choice':
             d = _choice_compare(i[0], m, c.get('items'), ctx.count)
         elif k == 'seed':
@@ -1938,6 +2128,11 @@ def run(ctx):  # noqa: C901
                           kind='correspondence', relation='exact ' + k, impl_output=i, model_output=m[:2000],
                           signature='C08/corr/' + k, no_failing_input=True)
     ctx.extra['correspondence_disagreements'] = len(suspicious)
+    hit = {b: ctx.counters.get('branch:' + b, 0) for b in _BRANCHES}
+    ctx.extra['counts'] = {'branches': hit, 'zero_hit_branches': sorted(b for b, v in hit.items() if not v),
+                           'unreachable_by_theorem': _UNREACHABLE}
+    if ctx.extra['counts']['zero_hit_branches']:
+        ctx.note('C08: model branches not exercised in this run: %s' % ', '.join(ctx.extra['counts']['zero_hit_branches']))
     ctx.extra['constants_from_source'] = dict(_gen())
 
 
